@@ -67,11 +67,9 @@ Calls == {"PlotAll", "PlotOne", "MineAll", "MineOne", "StopAll", "StopOne"}
 H(call, k, m, w) == CASE call = "PlotAll" -> HPlotAll(k, m) [] call = "PlotOne" -> HPlotOne(k, m, w)
                       [] call = "MineAll" -> HMineAll(k, m) [] call = "MineOne" -> HMineOne(k, m, w)
                       [] call = "StopAll" -> HStopAll(k, m) [] call = "StopOne" -> HStopOne(k, m, w)
-\* the environment does not overfill the request channel (C13's finding) and does not stop the keeper between the
-\* plotter's pop and its first step (which of the two wins is the scheduler's choice)
-CanCall(call, k, w) == /\ call \in {"PlotAll", "MineAll"} => Len(k.chan) + Cardinality(Spaces) <= ChanCap
-                       /\ call \in {"PlotOne", "MineOne"} => ~Blocks(k, w, "Plot")
-                       /\ call = "StopAll" /\ k.run => k.plt.pc # "popped"
+\* the environment does not stop the keeper between the plotter's pop and its first step (which of the two wins is the
+\* scheduler's choice); a full request channel refuses a request (the bulk handlers then answer an internal error)
+CanCall(call, k, w) == call = "StopAll" /\ k.run => k.plt.pc # "popped"
 
 TwoParts == \A call \in Calls, w \in Spaces : H(call, K, Mn, w).k = ActPart(call, Pre(call, K), w).k /\ H(call, K, Mn, w).res = ActPart(call, Pre(call, K), w).res
 
